@@ -694,6 +694,61 @@ Proof.
   - repeat split; assumption.
 Qed.
 
+(* the specification value itself (eri_spec = the right-hand side of two_elec_correct) *)
+Lemma eri_spec_unfold (s1 s2 s3 s4 : shell F) (m1 i1 m2 i2 m3 i3 m4 i4 : nat) :
+  eri_spec K s1 s2 s3 s4 m1 i1 m2 i2 m3 i3 m4 i4
+  = fmul K (fmul K (fmul K (fmul K
+      (csum K (wts K s1) m1 (s_exps s1) (fun alpha =>
+        csum K (wts K s2) m2 (s_exps s2) (fun beta =>
+          csum K (wts K s3) m3 (s_exps s3) (fun gamma =>
+            csum K (wts K s4) m4 (s_exps s4) (fun delta =>
+              Phi K (eri_base K (s_x s1) (s_y s1) (s_z s1) (s_x s2) (s_y s2) (s_z s2)
+                                (s_x s3) (s_y s3) (s_z s3) (s_x s4) (s_y s4) (s_z s4)
+                                alpha beta gamma delta) 0
+                    (R4 K s1 s2 s3 s4 i1 i2 i3 i4 alpha beta gamma delta))))))
+      (inv_sqrt_df K (nth i1 (comps_of s1) (0, 0, 0)))) (inv_sqrt_df K (nth i2 (comps_of s2) (0, 0, 0))))
+      (inv_sqrt_df K (nth i3 (comps_of s3) (0, 0, 0)))) (inv_sqrt_df K (nth i4 (comps_of s4) (0, 0, 0))).
+Proof. reflexivity. Qed.
+
+(* spec symmetry: a <-> b, c <-> d, (ab) <-> (cd); only the exponent sums must be non-zero *)
+Theorem eri_spec_symmetric :
+  forall (s1 s2 s3 s4 : shell F) (m1 i1 m2 i2 m3 i3 m4 i4 : nat),
+  (forall n, ofnat K (S n) <> f0 K) ->
+  (forall alpha beta, In alpha (s_exps s1) -> In beta (s_exps s2) -> fadd K alpha beta <> f0 K) ->
+  (forall gamma delta, In gamma (s_exps s3) -> In delta (s_exps s4) -> fadd K gamma delta <> f0 K) ->
+  (forall alpha beta gamma delta, In alpha (s_exps s1) -> In beta (s_exps s2) ->
+     In gamma (s_exps s3) -> In delta (s_exps s4) ->
+     fadd K (fadd K alpha beta) (fadd K gamma delta) <> f0 K) ->
+  eri_spec K s1 s2 s3 s4 m1 i1 m2 i2 m3 i3 m4 i4 = eri_spec K s2 s1 s3 s4 m2 i2 m1 i1 m3 i3 m4 i4
+  /\ eri_spec K s1 s2 s3 s4 m1 i1 m2 i2 m3 i3 m4 i4 = eri_spec K s1 s2 s4 s3 m1 i1 m2 i2 m4 i4 m3 i3
+  /\ eri_spec K s1 s2 s3 s4 m1 i1 m2 i2 m3 i3 m4 i4 = eri_spec K s3 s4 s1 s2 m3 i3 m4 i4 m1 i1 m2 i2.
+Proof.
+  intros s1 s2 s3 s4 m1 i1 m2 i2 m3 i3 m4 i4 char0 Hp Hq Hpq.
+  assert (He : exps_ok K s1 s2 s3 s4) by (repeat split; assumption).
+  split; [|split].
+  - now apply (eri_spec_swap_ab K Kf char0).
+  - now apply (eri_spec_swap_cd K Kf char0).
+  - now apply (eri_spec_swap_el K Kf char0).
+Qed.
+
+(* all eight orientations at once *)
+Theorem eri_spec_symmetric_8 :
+  forall (o : orient) (s1 s2 s3 s4 : shell F) (m1 i1 m2 i2 m3 i3 m4 i4 : nat),
+  (forall n, ofnat K (S n) <> f0 K) ->
+  (forall alpha beta, In alpha (s_exps s1) -> In beta (s_exps s2) -> fadd K alpha beta <> f0 K) ->
+  (forall gamma delta, In gamma (s_exps s3) -> In delta (s_exps s4) -> fadd K gamma delta <> f0 K) ->
+  (forall alpha beta gamma delta, In alpha (s_exps s1) -> In beta (s_exps s2) ->
+     In gamma (s_exps s3) -> In delta (s_exps s4) ->
+     fadd K (fadd K alpha beta) (fadd K gamma delta) <> f0 K) ->
+  eri_spec K (opick1 o s1 s2 s3 s4) (opick2 o s1 s2 s3 s4) (opick3 o s1 s2 s3 s4) (opick4 o s1 s2 s3 s4)
+           (opick1 o m1 m2 m3 m4) (opick1 o i1 i2 i3 i4) (opick2 o m1 m2 m3 m4) (opick2 o i1 i2 i3 i4)
+           (opick3 o m1 m2 m3 m4) (opick3 o i1 i2 i3 i4) (opick4 o m1 m2 m3 m4) (opick4 o i1 i2 i3 i4)
+  = eri_spec K s1 s2 s3 s4 m1 i1 m2 i2 m3 i3 m4 i4.
+Proof.
+  intros o s1 s2 s3 s4 m1 i1 m2 i2 m3 i3 m4 i4 char0 Hp Hq Hpq.
+  apply (eri_spec_orient K Kf char0). repeat split; assumption.
+Qed.
+
 (* the three generators written out: (ba|cd), (ab|dc), (cd|ab) *)
 Section Generators.
 Variables (s1 s2 s3 s4 : shell F) (m1 i1 m2 i2 m3 i3 m4 i4 : nat).
@@ -774,3 +829,8 @@ Example transposition_matters_ex :
   block_eqb (eri_block KQ4 o_s3 o_s4 o_s1 o_s2) (eri_block KQ4 o_s1 o_s2 o_s3 o_s4) = false
   /\ length (flat8 (eri_block KQ4 o_s1 o_s2 o_s3 o_s4)) = 36%nat.
 Proof. split; vm_compute; reflexivity. Qed.
+(* the constructors are electron_repulsion.py::_ORIENTATIONS in source order *)
+Example orient_orders_ex :
+  (map (fun o => [opick1 o 0 1 2 3; opick2 o 0 1 2 3; opick3 o 0 1 2 3; opick4 o 0 1 2 3]) all_orients
+   = [[0; 1; 2; 3]; [1; 0; 2; 3]; [0; 1; 3; 2]; [1; 0; 3; 2]; [2; 3; 0; 1]; [3; 2; 0; 1]; [2; 3; 1; 0]; [3; 2; 1; 0]])%nat.
+Proof. reflexivity. Qed.
